@@ -747,7 +747,7 @@ def serialize_dict(
         dangerous_characters = "{}[]\"\\" + delimiter + equal_tag
         for ch in in_buffer_str:
             if ch in dangerous_characters:
-                buffer_str += f"\\x{ord(ch):x}"
+                buffer_str += f"\\x{ord(ch):02x}"
             else:
                 buffer_str += ch
 
